@@ -229,7 +229,7 @@ func (rb *Bitmap) String() string {
 	return b.String()
 }
 
-func (rb *Bitmap) HasRunCompression() bool { return false }
+func (rb *Bitmap) HasRunCompression() bool { return rb.run }
 
 func (rb *Bitmap) CloneCopyOnWriteContainers() {}
 func (rb *Bitmap) SetCopyOnWrite(val bool)     {}
